@@ -306,6 +306,7 @@ fn project(out: &str, c: Cmp) -> &str {
 pub fn compare_full(d: &mut Driver, rep: &mut Report, s: &Session, what: Cmp) -> (Vec<String>, Vec<String>) {
     let req = s.request();
     let model = d.ask(&req);
+    set_case(&req);
     let imp = s.run_impl();
     let m: Vec<String> = model.split(';').map(|x| x.to_string()).collect();
     let same = m.len() == imp.len() && m.iter().zip(imp.iter()).all(|(a, b)| project(a, what) == project(b, what));
